@@ -88,6 +88,14 @@ Definition c_Slice : Z := Eval vm_compute in C "codeSlice".
 Definition c_Sub : Z := Eval vm_compute in C "codeSub".
 Definition c_Zero : Z := Eval vm_compute in C "codeZero".
 
+Definition c_FastGet : Z := Eval vm_compute in C "codeFastGet".
+Definition c_FastSet : Z := Eval vm_compute in C "codeFastSet".
+Definition c_GetAttr : Z := Eval vm_compute in C "codeGetAttr".
+Definition c_SetAttr : Z := Eval vm_compute in C "codeSetAttr".
+Definition c_FastGetAttr : Z := Eval vm_compute in C "codeFastGetAttr".
+Definition c_FastSetAttr : Z := Eval vm_compute in C "codeFastSetAttr".
+Definition c_FastCallAttr : Z := Eval vm_compute in C "codeFastCallAttr".
+
 (* joinParams / splitParams of compiler.go *)
 Definition joinParams (a b : Z) : Z := Z.lor (Z.shiftl (Z.land (a + 32768) 65535) 16) (Z.land (b + 32768) 65535).
 Definition splitParams (v : Z) : Z * Z :=
@@ -197,6 +205,13 @@ Definition new_slice (s : st) (elemT : Z) (cells : list value) : st * value :=
 Section Exec.
   (* capacity chosen by Go's append when it must reallocate: an oracle (old cap, needed len) -> new cap *)
   Variable grow : Z -> Z -> Z.
+  (* objects outside the modelled fragment (maps, structs, host objects): their Get / Set / Len /
+     getIndex / setIndex as an oracle; None = not modelled.  Theorems quantify over every oracle. *)
+  Variable ext_get : st -> value -> value -> option (res value).
+  Variable ext_set : st -> value -> value -> value -> option (res st).
+  Variable ext_len : st -> value -> option Z.
+  Variable ext_getattr : st -> value -> Z -> option (res (value * st)).
+  Variable ext_setattr : st -> value -> Z -> value -> option (res st).
 
   Definition obj_get (s : st) (r k : value) (pos : Z) : res value + string :=
     if is_slice_tag (vt r) then
@@ -217,7 +232,7 @@ Section Exec.
                   end
       | _ => inl Panic
       end
-    else inr "Get on unmodelled object".
+    else match ext_get s r k with Some rv => inl rv | None => inr "Get on unmodelled object" end.
 
   Definition obj_set (s : st) (r k v : value) : (res st) + string :=
     if is_slice_tag (vt r) then
@@ -229,14 +244,14 @@ Section Exec.
           else inl Panic
       | None => inl Panic
       end
-    else inr "Set on unmodelled object".
+    else match ext_set s r k v with Some rs => inl rs | None => inr "Set on unmodelled object" end.
 
   Definition obj_len (s : st) (r : value) : option Z :=
     if is_slice_tag (vt r) then
       match slice_parts s r with Some (_, _, _, len, _) => Some len | None => Some 0 end
     else if vt r =? TypeString then match vval r with PStr b => Some (zlen b) | _ => Some 0 end
     else if vt r =? TypeNil then Some 0
-    else None.
+    else ext_len s r.
 
   (* pop n operands: returns them bottom-first (the order they were pushed) *)
   Fixpoint popn (n : nat) (ops : list value) (acc : list value) : option (list value * list value) :=
@@ -451,6 +466,72 @@ Section Exec.
                                  | inr w => SUnmod w
                                  end
           | [], _ => SStuck "FASTSETINT" | _, None => SStuck "local slot"
+          end
+        else if c =? c_FastGet then
+          match znth slots (iA i), znth (globals s) (iB i) with
+          | Some r, Some k => match obj_get s r k pos with
+                              | inl rv => slift rv s (fun v => SNext slots (v :: ops) s)
+                              | inr w => SUnmod w
+                              end
+          | None, _ => SStuck "local slot" | _, None => SStuck "global index"
+          end
+        else if c =? c_FastSet then
+          match ops, znth slots (iA i), znth (globals s) (iB i) with
+          | v :: rest, Some r, Some k => match obj_set s r k v with
+                                         | inl (Ok s') => SNext slots rest s'
+                                         | inl _ => SFail "runtime error" s
+                                         | inr w => SUnmod w
+                                         end
+          | [], _, _ => SStuck "FASTSET" | _, None, _ => SStuck "local slot" | _, _, None => SStuck "global index"
+          end
+        else if c =? c_GetAttr then
+          match ops with
+          | r :: rest => match ext_getattr s r (iA i) with
+                         | Some (Ok (v, s')) => SNext slots (v :: rest) s'
+                         | Some _ => SFail "runtime error" s
+                         | None => SUnmod "getIndex"
+                         end
+          | [] => SStuck "GETATTR"
+          end
+        else if c =? c_SetAttr then
+          match ops with
+          | obj :: v :: rest => match ext_setattr s obj (iA i) v with
+                                | Some (Ok s') => SNext slots rest s'
+                                | Some _ => SFail "runtime error" s
+                                | None => SUnmod "setIndex"
+                                end
+          | _ => SStuck "SETATTR"
+          end
+        else if c =? c_FastGetAttr then
+          match znth slots (iA i) with
+          | Some r => match ext_getattr s r (iB i) with
+                      | Some (Ok (v, s')) => SNext slots (v :: ops) s'
+                      | Some _ => SFail "runtime error" s
+                      | None => SUnmod "getIndex"
+                      end
+          | None => SStuck "local slot"
+          end
+        else if c =? c_FastSetAttr then
+          match ops, znth slots (iA i) with
+          | v :: rest, Some obj => match ext_setattr s obj (iB i) v with
+                                   | Some (Ok s') => SNext slots rest s'
+                                   | Some _ => SFail "runtime error" s
+                                   | None => SUnmod "setIndex"
+                                   end
+          | [], _ => SStuck "FASTSETATTR" | _, None => SStuck "local slot"
+          end
+        else if c =? c_FastCallAttr then
+          match znth slots (iA i) with
+          | Some obj => match ext_getattr s obj (iB i) with
+                        | Some (Ok (fv, s')) =>
+                            match addr_of fv with
+                            | Some a => let '(c1, c2) := splitParams (iC i) in SCall true a c1 c2 slots ops s'
+                            | None => SFail "interface conversion" s'
+                            end
+                        | Some _ => SFail "runtime error" s
+                        | None => SUnmod "getIndex"
+                        end
+          | None => SStuck "local slot"
           end
         else if c =? c_Len then
           match ops with
